@@ -235,10 +235,19 @@ EvEnter == /\ Is("en") /\ LET S == Settle(frames, done) IN
 EvCondBegin == /\ Is("kb") /\ LET S == Settle(frames, done) IN
                   /\ S.fr # <<>> /\ Top(S.fr).k = "D" /\ Top(S.fr).cur = 0 /\ Top(S.fr).ph = "l"
                   /\ LET d == Top(S.fr)  t == LiveR(d.e, d.todo, d.v) IN
-                     /\ t # <<>> /\ Head(t) = Ev.a /\ kind[Ev.a].k = "cond" /\ Ev.u = d.uid /\ Ev.b = d.v
+                     /\ t # <<>> /\ Head(t) = Ev.a /\ kind[Ev.a].k = "cond" /\ Ev.u = d.uid /\ Ev.b = d.v /\ Ev.a % 3 # 2
                      /\ frames' = [S.fr EXCEPT ![Len(S.fr)] = [d EXCEPT !.todo = Tail(t), !.cur = Ev.a, !.ph = "c"]]
                   /\ done' = S.dn
                /\ UNCHANGED <<lst, flt, nn, nf, pending, pins, kind, rem>>
+\* a condition that does not accept the trigger's arguments (the harness gives the listeners numbered 2 modulo 3 one) is asked without
+\* them; one that accepts them - even if it could also be called without - must get them ("kb" above; its argument-less form has no step)
+EvCondBeginNoArg == /\ Is("kn") /\ LET S == Settle(frames, done) IN
+                       /\ S.fr # <<>> /\ Top(S.fr).k = "D" /\ Top(S.fr).cur = 0 /\ Top(S.fr).ph = "l"
+                       /\ LET d == Top(S.fr)  t == LiveR(d.e, d.todo, d.v) IN
+                          /\ t # <<>> /\ Head(t) = Ev.a /\ kind[Ev.a].k = "cond" /\ Ev.a % 3 = 2
+                          /\ frames' = [S.fr EXCEPT ![Len(S.fr)] = [d EXCEPT !.todo = Tail(t), !.cur = Ev.a, !.ph = "c"]]
+                       /\ done' = S.dn
+                    /\ UNCHANGED <<lst, flt, nn, nf, pending, pins, kind, rem>>
 EvCondEnd == /\ Is("ke") /\ frames # <<>> /\ Top(frames).k = "D" /\ Top(frames).ph = "c" /\ Top(frames).cur = Ev.a /\ Ev.a # 0
              /\ frames' = [frames EXCEPT ![Len(frames)].ph = "k"]
              /\ IF Ev.r = 1 THEN lst' = Strip(lst, {Ev.a}) /\ pins' = pins + 1 ELSE UNCHANGED <<lst, pins>>
@@ -429,7 +438,7 @@ Next == \/ ((EvAppendL \/ EvPrependL \/ EvInsertL \/ EvAppendCtr \/ EvAppendCond
         \/ ((EvRemoveL \/ EvHasAnyL \/ EvOwnsL \/ EvForEachL \/ EvVisitL \/ EvAppendF \/ EvRemoveF
              \/ EvDispatchBegin \/ EvDispatchEnd \/ EvMixinHook \/ EvFilterBegin \/ EvFilterEnd \/ EvRet
              \/ EvEnqueue \/ EvProcessBegin \/ EvPredBegin \/ EvPredEnd \/ EvProcessEnd \/ EvPeek \/ EvTake \/ EvTakeDispatch \/ EvClear \/ EvEmptyQ \/ EvEndNoDrain) /\ UR)
-        \/ ((EvEnter \/ EvCondBegin \/ EvCondEnd
+        \/ ((EvEnter \/ EvCondBegin \/ EvCondBeginNoArg \/ EvCondEnd
              \/ EvSAdd \/ EvSRemove \/ EvSReset \/ EvSTarget \/ EvSMoveConstruct \/ EvSMoveAssign \/ EvSSwap \/ EvSDestroy \/ EvSCreate) /\ UA)
         \/ EvReset
 
